@@ -296,3 +296,35 @@ def raising_site(exc, under=None):
     if not frames:
         return ('?', '?')
     return (frames[-1].name, frames[0].name)
+
+
+_LOG_STATE = {'on': False, 'saved': None}
+
+
+def set_debug_logging(on):
+    """The application's log level is no input of any property: switch the library's loggers to DEBUG (into a NullHandler) or back."""
+    import logging
+    lib = logging.getLogger('ndn')
+    if on and not _LOG_STATE['on']:
+        _LOG_STATE['saved'] = (lib.level, lib.propagate, logging.root.manager.disable)
+        if not any(isinstance(h, logging.NullHandler) for h in lib.handlers):
+            lib.addHandler(logging.NullHandler())
+        lib.propagate = False
+        lib.setLevel(logging.DEBUG)
+        logging.disable(logging.NOTSET)
+        _LOG_STATE['on'] = True
+    elif not on and _LOG_STATE['on']:
+        lvl, prop, dis = _LOG_STATE['saved']
+        lib.setLevel(lvl)
+        lib.propagate = prop
+        logging.disable(dis)
+        _LOG_STATE['on'] = False
+
+
+class OddStr(str):
+    """A str subclass whose str() differs from its characters (what `class Topic(str, Enum)` members are on Python 3.11+): as a name
+    or component it is the characters it consists of."""
+    def __str__(self):
+        return 'OddStr<' + str.__str__(self)[::-1] + '>'
+
+    __repr__ = __str__
